@@ -78,6 +78,9 @@ var libSigs = map[string]libSig{
 	"strings.Index":     {[]string{"Str", "Str"}, "Int"},
 	"strings.Split":     {[]string{"Str", "Str"}, "L_Str"},
 	"strings.SplitN":    {[]string{"Str", "Str", "Int"}, "L_Str"},
+	"strings.Fields":    {[]string{"Str"}, "L_Str"},
+	"strings.ReplaceAll": {[]string{"Str", "Str", "Str"}, "Str"},
+	"strings.Join":      {[]string{"L_Str", "Str"}, "Str"},
 	"strings.ToLower":   {[]string{"Str"}, "Str"},
 	"strconv.Atoi#0":    {[]string{"Str"}, "Int"},
 	"strconv.Atoi#1":    {[]string{"Str"}, "Err"},
